@@ -1832,6 +1832,12 @@ class Compiler:
                     "Name disallowed by compiler.", name
                 )
 
+            if name.startswith('__'):
+                raise TranslationError(
+                    "Name disallowed by compiler (double underscore).",
+                    name
+                )
+
         if len(node.names) > 1:
             targets = [
                 ast.Tuple(elts=[
